@@ -14,7 +14,7 @@ from .common import class_hashes
 # classes whose four interface methods are within the verifier's reach today
 READY = ["Value", "Apply", "Bind", "Switch", "Overloaded", "CaseWhen", "Coalesce", "Iter", "EvaluatableArgs", "EvaluatableKwargs",
          "EvaluatableArguments", "FunctionApplication", "PartialApplication", "PipelineStep", "Pipeline", "Logged", "Computation",
-         "WithOptions", "Cached", "Option", "_AllOptions"]
+         "WithOptions", "Cached", "Option", "_AllOptions", "Template"]
 # private helper classes reached only by inlining from the class that builds them (their contract is their body)
 INLINED_ONLY = ["_DependsOn"]
 
@@ -81,7 +81,7 @@ def witness_fn(tier):
             return None
         if group.startswith("undecided:"):
             cls = group.split(":", 1)[1].split(".")[0]
-            for law in ("L1", "L2", "L3", "L4a", "L5", "L5d", "L6", "L6v", "C05", "C08", "C06"):
+            for law in ("L1", "L2", "L3", "L4a", "L5", "L5d", "L6", "L6k", "L6v", "C05", "C08", "C06"):
                 w = lawsearch.search(cls, law, seed, budget)
                 if w:
                     return w
@@ -93,8 +93,8 @@ def witness_fn(tier):
 
 # classes whose interface methods are NOT within the verifier's reach today: a bounded check of the same executable laws on the real
 # code stands in (labelled bounded, never counted as proved)
-BOUNDED = ["Map", "Template"]
-NATIVE_LAWS = {"L1": "L1", "L2": "L2", "L3": "L3", "L4a": "L4a", "L4t": None, "L5": "L5", "L5b": None, "L5d": "L5d", "L6": "L6", "L6v": "L6v", "C05": "C05", "L10": None}
+BOUNDED = ["Map"]
+NATIVE_LAWS = {"L1": "L1", "L2": "L2", "L3": "L3", "L4a": "L4a", "L4t": None, "L5": "L5", "L5b": None, "L5d": "L5d", "L6": "L6", "L6k": "L6k", "L6v": "L6v", "C05": "C05", "L10": None}
 
 
 def bounded_standin(laws, seed, tier):
@@ -126,6 +126,12 @@ def bundle(repo, tier, seed, laws, classes=None, extra_vcs=(), extra_sanity=(), 
     tkf, tkn = tk_validate.validate()
     if tkf:
         raise RuntimeError(f"assumed contract of resolve/_templated_keys failed its bounded validation on the real functions: {tkf[0]!r}")
+    tpn = 0
+    if classes is None or "Template" in classes:
+        from harness import tp_validate
+        tpf, tpn = tp_validate.validate(full=(tier != "quick"), quick=(tier == "quick"))
+        if tpf:
+            raise RuntimeError(f"assumed clause of the Template theory (OptTheory.resolve.params / .escape / P-str.param) failed its bounded validation on the real functions: {tpf[0]!r}")
     xc = {"classes": [], "checked": 0}
     if crosscheck:
         from harness import crosscheck as xcheck
@@ -145,10 +151,12 @@ def bundle(repo, tier, seed, laws, classes=None, extra_vcs=(), extra_sanity=(), 
         "trusted_base": ["interface laws assumed for children (A-ext); OptTheory clauses for confectioner (assumed, bounded-validated)",
                          "region complements of recorded findings: " + ("; ".join(regions) or "none")],
         "assumptions": ["classes under contract: " + ", ".join(classes or READY),
-                        "classes NOT under contract (out of the verifier's reach today): Map, Template (bounded stand-in on the real code, labelled bounded), Namespace, _DatasetClassMeta (no claim)",
+                        "classes NOT under contract (out of the verifier's reach today): Map (bounded stand-in on the real code, labelled bounded), Namespace, _DatasetClassMeta (no claim)",
                         "private helper classes are verified by inlining only: " + ", ".join(INLINED_ONLY)] + [f"proved outside region: {x}" for x in regions],
         "explanation": explanation,
         "engine_crosscheck": xc,
         "samples": [{"resolve_and_templated_keys_contract_validation": "clauses of theory.resolve_axioms / tk_contract_axioms evaluated on the real confectioner.resolve and labrea.option._templated_keys",
-                     "cases": tkn, "failures": 0}, {"opt_theory_validation": "every OptTheory clause evaluated with has/get/mix/... interpreted by the real confectioner", "cases": vcounts, "failures": 0}],
+                     "cases": tkn, "failures": 0},
+                    {"template_theory_validation": "clauses of theory.template_axioms / escape_axioms evaluated on the real confectioner.resolve/mix, re and str (harness/tp_validate.py)", "cases": tpn, "failures": 0},
+                    {"opt_theory_validation": "every OptTheory clause evaluated with has/get/mix/... interpreted by the real confectioner", "cases": vcounts, "failures": 0}],
     }
